@@ -95,8 +95,8 @@ func (c *Ctx) guaranteeBlocks(fi *FuncInfo, g *FuncCFG, body *ast.BlockStmt, pOb
 	return out
 }
 
-var ruleA1 = &Rule{
-	ID:    "A1",
+var ruleA1old = &Rule{
+	ID:    "A1old",
 	Floor: 4,
 	Doc: "promise typestate: for every promise created with promise.New in writer/…, every path from the creation to a `return p` passes a point that completes it (p.Done), hands it to the batch (append(svc.results, p), performed under the batch lock — B1), " +
 		"or starts a goroutine / immediately-invoked closure that does one of these on all of its own paths; Done itself completes at most once: its writes to the result fields and the close of the wait channel are dominated by the successful compare-and-swap of the pending flag",
@@ -486,7 +486,7 @@ var ruleA9 = &Rule{
 var ruleA8 = &Rule{
 	ID:    "A8",
 	Floor: 1,
-	Doc: "snappy size guard: every snappy.Decode of a request body in writer/… is dominated by a comparison of snappy.DecodedLen of the same source against a limit, on the edge where the limit is not exceeded",
+	Doc:   "snappy size guard: every snappy.Decode of a request body in writer/… is dominated by a comparison of snappy.DecodedLen of the same source against a limit, on the edge where the limit is not exceeded",
 	Run: func(c *Ctx) []Obl {
 		var obls []Obl
 		for _, pk := range c.PkgsUnder("writer") {
@@ -577,7 +577,9 @@ var ruleA8 = &Rule{
 	},
 }
 
-func init() { register(ruleA1, ruleA9, ruleA8) }
+func init() { register(ruleA9, ruleA8) }
+
+var _ = ruleA1old
 
 // isFreshLocal: the receiver of the method call is a local variable defined in this function from a composite literal.
 func (c *Ctx) isFreshLocal(fi *FuncInfo, call *ast.CallExpr) bool {
